@@ -126,13 +126,7 @@ func c06(c *q.Ctx) {
 		c.StoreIs(ns, "State.latestBlockid", "i:Database.Get(*,\"pointer\")#0", 1, "and becomes the in-memory pointer")
 		c.Gate(ns, "Tx.LoadUnconfirmedTxFromDisk", q.ToSuccess(), q.Opt{})
 	}
-	lu := c.Fn("bcs/ledger/xledger/tx::(*Tx).LoadUnconfirmedTxFromDisk")
-	if lu != nil {
-		c.ArgIs(lu, "NewIteratorWithPrefix", 0, "\"N\"", 1, "the pool is rebuilt from the persisted unconfirmed table")
-		it := "i:Database.NewIteratorWithPrefix(p0.ldb,\"N\")"
-		c.Effect(lu, q.Eff{Spec: "Map.Store", Arg: 0, Glob: "i:Iterator.Key(" + it + ")[1:]", Req: []q.Cond{{Canon: "i:Iterator.Next(" + it + ")", Sense: true}, {Canon: "(nil == proto.Unmarshal(i:Iterator.Value(" + it + "),local<Transaction>))", Sense: true}}, Exact: true, Why: "every persisted pool record is loaded, under its id, with no filter: a record that is skipped leaves effects in the state that no rollback knows about", Rule: "K2"})
-		c.ArgIs(lu, "Map.Store", 2, "local<Transaction>", 1, "what is stored is the decoded record")
-	}
+	poolReload(c)
 	tipNeq := q.Cond{Canon: "bytes.Equal(*TipBlockid,*latestBlockid)", Sense: false}
 	for _, fn := range []string{miner + "(*Miner).mining", miner + "(*Miner).trySyncBlock"} {
 		f := c.Fn(fn)
@@ -187,5 +181,19 @@ func c06(c *q.Ctx) {
 			c.Effect(f, q.Eff{Spec: "leveldb::Batch." + m, Arg: 0, Glob: "p1", Why: "batch operations only fill the engine batch", Rule: "K7"})
 			c.Check(len(q.CallsIn(f, "leveldb::DB.Put|leveldb::DB.Delete|leveldb::DB.Write")) == 0, "K7", "lib/storage/kvdb/leveldb::(*ldbBatch)."+m, "a batch operation does not touch the engine directly", "-", "")
 		}
+	}
+}
+
+// poolReload (C06, C05, C02, C03): at open the in-memory pool is rebuilt from EVERY record of the persisted pool table -
+// a pending transaction's effects are in the state tables, so a record that is skipped (because the transaction looks
+// confirmed, old, or uninteresting) leaves effects that nothing will ever undo or confirm, and a reopened node answers
+// differently from the one that kept running.
+func poolReload(c *q.Ctx) {
+	lu := c.Fn("bcs/ledger/xledger/tx::(*Tx).LoadUnconfirmedTxFromDisk")
+	if lu != nil {
+		c.ArgIs(lu, "NewIteratorWithPrefix", 0, "\"N\"", 1, "the pool is rebuilt from the persisted unconfirmed table")
+		it := "i:Database.NewIteratorWithPrefix(p0.ldb,\"N\")"
+		c.Effect(lu, q.Eff{Spec: "Map.Store", Arg: 0, Glob: "i:Iterator.Key(" + it + ")[1:]", Req: []q.Cond{{Canon: "i:Iterator.Next(" + it + ")", Sense: true}, {Canon: "(nil == proto.Unmarshal(i:Iterator.Value(" + it + "),local<Transaction>))", Sense: true}}, Exact: true, Why: "every persisted pool record is loaded, under its id, with no filter: a record that is skipped leaves effects in the state that no rollback knows about", Rule: "K2"})
+		c.ArgIs(lu, "Map.Store", 2, "local<Transaction>", 1, "what is stored is the decoded record")
 	}
 }
